@@ -186,7 +186,10 @@ def build_source(spec):
             fl = m.reshape(-1)
             for i in v['mask']:
                 fl[i % max(1, fl.size)] = True
-            # the cell that holds the fill value itself, if any, is masked too
+            # a cell that happens to hold the fill value is indistinguishable
+            # from a masked one on disk (netCDF's encoding): not representable
+            # unmasked, so it is masked in the source as well
+            m |= (a == np.dtype(v['dt']).type(v['fill']))
             a = np.ma.masked_array(a, mask=m)
         var[...] = a
     return f
